@@ -6,8 +6,9 @@ VARIABLE c
 Slice == {x \in Cases : /\ x.level \in {-1, 5}
                         /\ x.pos = (IF x.level = 5 THEN "alone" ELSE IF x.explicit THEN "inner" ELSE "outer")
                         /\ x.status = (IF x.compressible THEN 200 ELSE IF x.setcl THEN 201 ELSE 404)
-                        /\ x.flush = (x.explicit = x.compressible)}
-Init == c \in (IF Quick THEN Slice ELSE Cases)
+                        /\ x.flush = (x.explicit = x.compressible)
+                        /\ x.interim = (x.setcl /\ x.size \in {"min", "big"})}
+Init == c \in (IF Quick THEN Slice ELSE Cases) \cup BigCases
 Next == UNCHANGED c
 Emit == PrintT("CASE " \o ToJson(c))
 =============================================================================
